@@ -58,6 +58,8 @@ c?d+e*         { return 5; }
 {ID}|z+        { return 8; }
 "a+b"          { return 9; }
 foo|bar*       { return 10; }
+[k-m]q|kq      { return 11; }
+(n|no|[n-p]o)r  { return 12; }
 %%
 ''',
  'flags': r'''
